@@ -9,6 +9,7 @@ import copy
 import itertools
 
 import pickle
+import warnings
 import numpy as np
 
 from pyPRISM.core.PairTable import PairTable
@@ -246,7 +247,40 @@ def compare_check(ctx, T, model, types, where):
 TABLE_NAMES = ['monitored', 'potential', 'chi_{AB}', 'u_{ij}(r)', '{}', '100%', 'omega %s', 'a{0}b']
 
 
-def run_pairtable(ctx, types, steps):
+def _matches(T, model, types):
+    """quiet comparison (write ids only): does the table read exactly as the model says, from both orders?"""
+    for a in types:
+        for b in types:
+            got, exp = T[a, b], model.get(upair(a, b))
+            if (exp is None) != (got is None) or (exp is not None and uid_of(got) != exp[0]):
+                return False
+    return True
+
+
+def guarded_assign(ctx, T, key, v, model, after, types, where, werror):
+    """T[key] = v; with warnings escalated to errors (python -W error) a warning inside the assignment refuses it by an
+    exception, and the table that survives must read as wholly before or wholly after the statement - never torn."""
+    if not werror:
+        T[key] = v
+        model.clear(); model.update(after)
+        return
+    ctx.hook('pt.assign_under_warnings_as_errors')
+    try:
+        with warnings.catch_warnings():
+            warnings.simplefilter('error')
+            T[key] = v
+    except Warning as e:
+        ctx.hook('pt.assign_refused_by_escalated_warning')
+        if _matches(T, after, types):
+            model.clear(); model.update(after)
+        elif not _matches(T, model, types):
+            ctx.violation('pt:torn-assignment-when-warning-is-error', '%s: the assignment was interrupted by an escalated %s and left the table neither as before nor as after the statement (asymmetric / partly written group)' % (where, type(e).__name__))
+            model.clear(); model.update(after)
+        return
+    model.clear(); model.update(after)
+
+
+def run_pairtable(ctx, types, steps, werror=False):
     T = PairTable(list(types), TABLE_NAMES[(len(steps) + len(types)) % len(TABLE_NAMES)])         # any string is a legal name
     model = {}           # unordered pair -> [uid, payload]
     callers = []
@@ -260,8 +294,9 @@ def run_pairtable(ctx, types, steps):
             v = make_value(st[3], KINDS[st[3] % len(KINDS)])
             callers.append(v)
             reassign |= upair(a, b) in model
-            T[a, b] = v
-            model[upair(a, b)] = [uid_of(v), list(payload_of(v))]
+            after = dict(model)
+            after[upair(a, b)] = [uid_of(v), list(payload_of(v))]
+            guarded_assign(ctx, T, (a, b), v, model, after, types, where, werror)
         elif op == 'setlist':
             l1, l2 = [types[i] for i in st[1]], [types[i] for i in st[2]]
             form = st[4]
@@ -269,11 +304,12 @@ def run_pairtable(ctx, types, steps):
             k2 = tuple(l2) if form == 'tuple' else (l2[0] if form == 'single_right' else list(l2))
             v = make_value(st[3], KINDS[st[3] % len(KINDS)])
             callers.append(v)
-            T[k1, k2] = v
+            after = dict(model)
             for a in l1:
                 for b in l2:
                     reassign |= upair(a, b) in model
-                    model[upair(a, b)] = [uid_of(v), list(payload_of(v))]
+                    after[upair(a, b)] = [uid_of(v), list(payload_of(v))]
+            guarded_assign(ctx, T, (k1, k2), v, model, after, types, where, werror)
         elif op == 'setunset':
             v = make_value(st[1], KINDS[st[1] % len(KINDS)])
             callers.append(v)
@@ -449,7 +485,7 @@ def run_case(ctx, case):
     rng = np.random.default_rng(case['seed'])
     types = list(case['types'])
     steps = gen_steps(rng, types, int(case['nsteps']))
-    reassign = run_pairtable(ctx, types, steps)
+    reassign = run_pairtable(ctx, types, steps, werror=(case['seed'] % 4 == 2))
     run_valuetable(ctx, types, [s for s in steps if s[0] in ('set1', 'setlist', 'setunset')])
     run_valuetable_builtin(ctx, types, rng)
     if reassign:
